@@ -1,7 +1,7 @@
 (* C12 -- Replication describes the same crystal in a larger cell.
    Model: Model/Atoms.v (replicate = fold of extend over the multiplier triples, zero type offsets, empty identity map). *)
 From Coq Require Import List Arith Bool ZArith.
-From Mofun Require Import Lib.NP Model.Atoms Proofs.DelProofs Proofs.ExtProofs Proofs.ReplProofs.
+From Mofun Require Import Lib.NP Model.Atoms Proofs.DelProofs Proofs.ExtProofs Proofs.ReplProofs Proofs.WFProofs Proofs.ReplTermsProofs.
 Import ListNotations.
 
 (* a*b*c*N atoms: the original atoms, translated by i*A + j*B + k*C, once per multiplier triple (0,0,0 first), each with identical
@@ -39,6 +39,22 @@ Theorem C12_copies_supersede_nothing : forall n new t,
   t <> [] -> Forall (fun v => v < n) t -> Forall (fun u => Forall (fun v => n <= v) u) new -> overridden new t = false.
 Proof. exact not_overridden_shift. Qed.
 Print Assumptions C12_copies_supersede_nothing.
+
+(* every bond, angle, dihedral and improper is copied within each image with its type: image number i (0 = the original, then the
+   multiplier triples in order) carries the original's tuples shifted by i * N; types are repeated per image; coefficient tables
+   are unchanged.  (Tuples are non-empty, as every real term is.) *)
+Theorem C12_terms_copied_per_image : forall a c r R, a_cell a = Some c -> WF a ->
+  nonempty_tuples (bonds a) -> nonempty_tuples (angles a) -> nonempty_tuples (dihedrals a) -> nonempty_tuples (impropers a) ->
+  replicate a r = Some R ->
+  let M := length (all_mults r) in let n := natoms a in
+  let img (k : kind) := flat_map (fun i => shift_tups (i * n) (k_tup k)) (seq 0 M) in
+  let typ (k : kind) := flat_map (fun _ => k_typ k) (seq 0 M) in
+  (k_tup (bonds R) = img (bonds a) /\ k_typ (bonds R) = typ (bonds a) /\ k_coef (bonds R) = k_coef (bonds a)) /\
+  (k_tup (angles R) = img (angles a) /\ k_typ (angles R) = typ (angles a) /\ k_coef (angles R) = k_coef (angles a)) /\
+  (k_tup (dihedrals R) = img (dihedrals a) /\ k_typ (dihedrals R) = typ (dihedrals a) /\ k_coef (dihedrals R) = k_coef (dihedrals a)) /\
+  (k_tup (impropers R) = img (impropers a) /\ k_typ (impropers R) = typ (impropers a) /\ k_coef (impropers R) = k_coef (impropers a)).
+Proof. exact replicate_terms. Qed.
+Print Assumptions C12_terms_copied_per_image.
 
 (* before fix D3 the cell was scaled column-wise; the row-wise model differs from it on a tilted cell with unequal factors *)
 Example C12_column_scaling_is_wrong :
